@@ -193,6 +193,11 @@ type X1 struct {
 	AfterExec                               func(ex *Exec) []Violation
 	AfterClose                              func()
 	RaceReports, RaceInternal, RaceTeardown int
+	// Bonus deepening: once the prescribed bound is complete, higher bounds are explored while the unit has CPU budget
+	// left under Bonus (zero value: off). A bonus bound that is cut short is not a cap on the prescribed exploration.
+	Bonus      Budget
+	Prescribed int    // the bound the scenario asked for
+	BonusNote  string // what the bonus rounds did
 }
 
 type FoundViolation struct {
@@ -367,6 +372,9 @@ func (x *X1) finish(ex *Exec) {
 		if ex.Deadlock != "" {
 			vs = append(vs, Violation{Property: "*", Rule: "deadlock", Msg: "threads parked forever: " + ex.Deadlock, Norm: "deadlock"})
 		}
+		if w.S.LockHazard != "" {
+			vs = append(vs, Violation{Property: "*", Rule: "deadlock", Msg: w.S.LockHazard, Norm: "recursive-read-lock"})
+		}
 		if x.Sc.Check != nil {
 			vs = append(vs, x.Sc.Check(w, ex)...)
 		}
@@ -438,12 +446,35 @@ func (x *X1) explore(prefix []int, prefixPoints []point) {
 // counterexample has the fewest deviations)
 func (x *X1) Run() {
 	max := x.Bound
-	for b := 0; b <= max; b++ {
+	x.Prescribed = max
+	for b := 0; ; b++ {
+		bonus := b > max
+		prevStates, prevExecs := x.States, x.Execs
+		if bonus {
+			if x.Bonus.cpu == 0 || x.Bonus.Exceeded() || b > max+4 {
+				break
+			}
+			if x.Deadline.cpu == 0 || x.Bonus.cpu < x.Deadline.cpu {
+				x.Deadline = x.Bonus
+			}
+		}
 		x.Bound = b
 		x.BoundHit = false
 		x.cache = map[uint64]int8{}
 		x.States = 0
 		x.explore(nil, nil)
+		if bonus && x.TimedOut && len(x.Viol) == 0 {
+			// the prescribed exploration was complete; this round is extra and simply stops here
+			x.TimedOut = false
+			x.BoundHit = true
+			x.Bound = b - 1
+			x.States = prevStates
+			x.BonusNote = fmt.Sprintf("bonus deviation bound %d started after the prescribed bound %d, stopped by its CPU allowance after %d executions (not counted as completed)", b, max, x.Execs-prevExecs)
+			break
+		}
+		if bonus {
+			x.BonusNote = fmt.Sprintf("bonus deviation bound %d completed beyond the prescribed bound %d", b, max)
+		}
 		if len(x.Viol) > 0 || x.TimedOut || !x.BoundHit {
 			break
 		}
